@@ -20,7 +20,7 @@ from fractions import Fraction
 from engine import term as T, agg, build, vg, poly as P, polycheck as PC
 from engine.agg import ELEM, TU
 from engine.report import HOLDS, VIOLATED, UNDECIDED
-from .common import Analysed, fn_where
+from .common import Analysed, fn_where, narrowing
 from .c09 import ortho_check
 from .c05 import ONE
 
@@ -34,6 +34,9 @@ def gen(t):
     a('w_m33', '%s& o, const %s& q' % (M3, Q), 'o = q.toMatrix33();')
     a('w_m44', '%s& o, const %s& q' % (M4, Q), 'o = q.toMatrix44();')
     a('w_mul', '%s& o, const %s& p, const %s& q' % (Q, Q, Q), 'o = p * q;')
+    a('w_mulassign', '%s& o, const %s& p, const %s& q' % (Q, Q, Q), '%s x = p; x *= q; o = x;' % Q)
+    a('w_div', '%s& o, const %s& p, const %s& q' % (Q, Q, Q), 'o = p / q;')
+    a('w_divassign', '%s& o, const %s& p, const %s& q' % (Q, Q, Q), '%s x = p; x /= q; o = x;' % Q)
     a('w_inverse', '%s& o, const %s& q' % (Q, Q), 'o = q.inverse();')
     a('w_invert', '%s& q' % Q, 'q.invert();')
     a('w_conj', '%s& o, const %s& q' % (Q, Q), 'o = ~q;')
@@ -276,6 +279,22 @@ def main(rep, ws, tier):
             if not okc: return ('~q is %s' % [T.show(x, 2) for x in cj], None, fn_where(S_('w_conj').fn))
             return (None, 'q*inverse(q) = (1,0,0,0); invert() = inverse(); ~q = (r, -v)', fn_where(S_('w_inverse').fn))
         ob('inverse / conjugate', 'R10.hom', inverse)
+
+        def compound():
+            # the compound-assignment and quotient forms are the product: p *= q is p*q, p / q and p /= q are p * q.inverse()
+            ctx = P.Ctx()
+            prod = outs(S_('w_mul'), 'a0', 4); inv = outs(S_('w_inverse'), 'a0', 4)
+            q1 = [agg.slot_in('a1', i, t) for i in range(4)]; q2 = [agg.slot_in('a2', i, t) for i in range(4)]
+            want_mul = [ctx.rat(x) for x in prod]
+            inv2 = [T.subst(x, dict(zip(q1, q2))) for x in inv]
+            want_div = [ctx.rat(T.subst(x, dict(zip(q2, inv2)))) for x in prod]
+            for w, want, what in (('w_mulassign', want_mul, 'p *= q is not p * q'), ('w_div', want_div, 'p / q is not p * q.inverse()'), ('w_divassign', want_div, 'p /= q is not p * q.inverse()')):
+                got = [ctx.rat(x) for x in outs(S_(w), 'a0', 4)]
+                for k in range(4):
+                    if not ctx.requal(got[k], want[k]):
+                        return ('%s (component %s): found %s, expected %s' % (what, 'rxyz'[k], P.show_rat(got[k], ctx)[:160], P.show_rat(want[k], ctx)[:160]), None, fn_where(S_(w).fn))
+            return (None, 'p *= q = p*q; p / q = p /= q = p * q.inverse() (rational identities, general quaternions)', fn_where(S_('w_mulassign').fn))
+        ob('compound product forms', 'R10.hom', compound)
 
         def axis_angle():
             A, Bq = S_('w_qaa'), S_('w_maa')
@@ -676,6 +695,7 @@ def main(rep, ws, tier):
             if not okp: return ('on the q1.q2 >= 0 arm slerp is called with a negated quaternion', None, fn_where(S.fn))
             return (None, 'slerp(q1, q2, t) when q1.q2 >= 0, slerp(q1, -q2, t) otherwise', fn_where(S.fn))
         ob('slerpShortestArc', 'R10.slerp', shortest)
+    narrowing(rep, ws, [gen('d'), gen_opaque('d'), gen_squad('d'), gen_spline('d'), gen_sinc('d')], 'R10.prec')
     rep.floor('quaternion obligations', len(rep.obs), 9 * len(types))
     rep.assumptions += ['exact real arithmetic at a generic point', '|q| = 1 where the statement says "unit"', 'sinx_over_x, sqrt, sin, cos as atoms with sqrt(x)^2 = x, sin^2+cos^2 = 1']
     rep.undecided_clauses += ['slerp on the small-argument branch of sinx_over_x and near q1 = -q2; exp(log q) = q for r near -1 or +1 (numeric)', 'squad / spline interpolation and tangent continuity', 'nearly opposite directions (numeric)']
